@@ -519,6 +519,20 @@ func runProgram(sc *Scenario, e *env, out map[string]interface{}) {
 			g.plan.active.Store(true)
 		}
 	}
+	if len(sc.Extras) > 0 {
+		// C01: at the n-th request of client c1 another client reads every key at a fresh timestamp (meets the locks
+		// written so far, pushes min-commit timestamps) before the request is delivered
+		_ = e.store("c1")
+		if g := e.gates["c1"]; g != nil {
+			for _, x := range sc.Extras {
+				x := x
+				if x.What == "reader" || x.What == "push_min_commit" {
+					g.plan.hooks[x.At] = func() { e.helper(x.What, x.K, 0) }
+				}
+			}
+			g.plan.active.Store(true)
+		}
+	}
 	record := func(i int, st Step, res map[string]interface{}) {
 		res["i"] = i
 		res["t"] = st.T
